@@ -1,4 +1,4 @@
-import FxVerif.Proofs.C04
+import FxVerif.Proofs.C04Batch
 /-! C04: every successful operation keeps `held + inFlight − deposited + withdrawn` of every token group -/
 namespace FxVerif.Proofs.C04
 open FxVerif.Model.Ledger FxVerif.Model.Flows FxVerif.Model.C04 FxVerif.Proofs.Ledger
@@ -314,44 +314,41 @@ theorem measure_finish0 (s : State) (c : Nat) (cs : ChainSt) (wd : List (Nat × 
     measure (finish s c cs [] wd) g = measure s g := by
   rw [measure_finish _ _ _ _ _ _ hc]; simp only [tokensValue, List.map_nil, List.sum_nil] at h ⊢; omega
 
-theorem measure_batch (cfg : Cfg) (s s' : State) (c g bf : Nat) (g' : Nat) (hc : c < 3)
-    (h : stepCore cfg s (.batch c g bf) = .ok s') : measure s' g' = measure s g' := by
+theorem measure_batch (cfg : Cfg) (s s' : State) (c g bf mf : Nat) (ao : Bool) (g' : Nat) (hc : c < 3)
+    (h : stepCore cfg s (.batch c g bf mf ao) = .ok s') : measure s' g' = measure s g' := by
   simp only [stepCore] at h; exc
   split at h
-  · split at h
-    · cases h
-    · split at h
-      · cases h
-      · cases h
-        apply measure_finish0 _ _ _ _ _ hc
-        have := filter_sum (fun t : PoolTx => t.g == g && decide (bf ≤ t.fee))
-          (fun t : PoolTx => if t.g = g' then t.amount + t.fee else 0) (s.chains c).pool
-        simp only [chainInFlight, poolValue, tokensValue, List.map_cons, List.map_nil, List.sum_cons, List.sum_nil] at this ⊢
-        omega
   · cases h
+  · rw [request_closed] at h
+    cases hb : batchResult (bridged cfg g c).isSome ao ⟨g, bf, mf⟩ (s.chains c) with
+    | error e => simp [hb] at h
+    | ok cs' =>
+      simp only [hb, Except.ok.injEq] at h; subst h
+      obtain ⟨_, _, _, _, rfl⟩ := batchResult_ok hb
+      apply measure_finish0 _ _ _ _ _ hc
+      have := filter_sum (selects ⟨g, bf, mf⟩)
+        (fun t : PoolTx => if t.g = g' then t.amount + t.fee else 0) (s.chains c).pool
+      simp only [chainInFlight, poolValue, tokensValue, List.map_cons, List.map_nil, List.sum_cons, List.sum_nil] at this ⊢
+      omega
 
-theorem batches_split (g' g nonce : Nat) (bs : List Batch) :
-    (bs.map (fun b => poolValue g' b.txs)).sum =
-      ((bs.filter (fun b => !(b.g == g && decide (b.nonce ≤ nonce)))).map (fun b => poolValue g' b.txs)).sum
-      + ((bs.filter (fun b => b.g == g && decide (b.nonce < nonce))).map (fun b => poolValue g' b.txs)).sum
-      + ((bs.filter (fun b => b.g == g && b.nonce == nonce)).map (fun b => poolValue g' b.txs)).sum := by
-  induction bs with
+/-- split of a sum along two disjoint predicates -/
+theorem split3_sum {α : Type} (p q : α → Bool) (v : α → Nat) (hd : ∀ x, p x = true → q x = true → False) (l : List α) :
+    (l.map v).sum = ((l.filter (fun x => !p x && !q x)).map v).sum + ((l.filter p).map v).sum
+      + ((l.filter q).map v).sum := by
+  induction l with
   | nil => rfl
-  | cons b bs ih =>
+  | cons x xs ih =>
     simp only [List.filter_cons, List.map_cons, List.sum_cons, ih]
-    by_cases hg : b.g = g
-    · rcases Nat.lt_trichotomy b.nonce nonce with h1 | h1 | h1
-      · have h2 : b.nonce ≤ nonce := by omega
-        have h3 : ¬ b.nonce = nonce := by omega
-        simp [hg, h1, h2, h3]; omega
-      · have h2 : b.nonce ≤ nonce := by omega
-        have h3 : ¬ b.nonce < nonce := by omega
-        simp [hg, h1, h2, h3]; omega
-      · have h2 : ¬ b.nonce ≤ nonce := by omega
-        have h3 : ¬ b.nonce < nonce := by omega
-        have h4 : ¬ b.nonce = nonce := by omega
-        simp [hg, h2, h3, h4]; omega
-    · simp [hg]; omega
+    cases hp : p x <;> cases hq : q x
+    · simp; omega
+    · simp; omega
+    · simp; omega
+    · exact absurd hq (fun h => hd x hp h)
+
+theorem cancels_isBatch_disjoint (g nonce : Nat) (b : Batch) :
+    cancels cancelRule g nonce b = true → isBatch g nonce b = true → False := by
+  simp [cancels, cancelRule, Cmp.eval, isBatch]
+  intro h1 _ h2; omega
 
 theorem tokensValue_append (g : Nat) (a b : List (Nat × Nat)) :
     tokensValue g (a ++ b) = tokensValue g a + tokensValue g b := by
@@ -375,9 +372,10 @@ theorem measure_executed (cfg : Cfg) (s s' : State) (c g nonce : Nat) (g' : Nat)
   · cases h
   · cases h
     apply measure_finish0 _ _ _ _ _ hc
-    have h1 := batches_split g' g nonce (s.chains c).batches
-    have h2 := exec_value g' ((s.chains c).batches.filter (fun b => b.g == g && b.nonce == nonce))
-    simp only [chainInFlight, poolValue_append, poolValue_flatMap, h2]
+    have h1 := split3_sum (cancels cancelRule g nonce) (isBatch g nonce) (fun b => poolValue g' b.txs)
+      (cancels_isBatch_disjoint g nonce) (s.chains c).batches
+    have h2 := exec_value g' ((s.chains c).batches.filter (isBatch g nonce))
+    simp only [chainInFlight, executedWith, poolValue_append, poolValue_flatMap, h2]
     omega
 
 theorem measure_btimeout (cfg : Cfg) (s s' : State) (c g nonce : Nat) (g' : Nat) (hc : c < 3)
@@ -387,8 +385,7 @@ theorem measure_btimeout (cfg : Cfg) (s s' : State) (c g nonce : Nat) (g' : Nat)
   · cases h
   · cases h
     apply measure_finish0 _ _ _ _ _ hc
-    have h1 := filter_sum (fun b : Batch => b.g == g && b.nonce == nonce) (fun b => poolValue g' b.txs)
-      (s.chains c).batches
+    have h1 := filter_sum (isBatch g nonce) (fun b => poolValue g' b.txs) (s.chains c).batches
     simp only [chainInFlight, poolValue_append, poolValue_flatMap, tokensValue, List.map_nil, List.sum_nil]
     omega
 
@@ -603,7 +600,7 @@ theorem step_measure (cfg : Cfg) (s s' : State) (op : Op) (g' : Nat) (h : step c
       · exact measure_xsend cfg s s' _ _ _ _ _ g' hc h
       · exact measure_cancel cfg s s' _ _ _ g' hc h
       · exact measure_incfee cfg s s' _ _ _ _ _ g' hc h
-      · exact measure_batch cfg s s' _ _ _ g' hc h
+      · exact measure_batch cfg s s' _ _ _ _ _ g' hc h
       · exact measure_executed cfg s s' _ _ _ g' hc h
       · exact measure_btimeout cfg s s' _ _ _ g' hc h
       · exact measure_bcout cfg s s' _ _ _ _ _ g' hc h
